@@ -1472,8 +1472,8 @@ static int sp_dgemm(char tA, char tB, number alpha, void *a, void *b,
             (double *)Z->values + Z->colptr[j], &intOne);
       }
 
-      if (beta.d != 0.0) {
-        if (Z->colptr[j+1]-Z->colptr[j] == m) {
+      if (beta.d != 0.0 || !(B->colptr[j+1]-B->colptr[j])) {
+        if (B->colptr[j+1]-B->colptr[j]) {
           for (l=C->colptr[j]; l<C->colptr[j+1]; l++) {
             ((double *)Z->values)[Z->colptr[j]+C->rowind[l]] +=
                 beta.d*((double *)C->values)[l];
@@ -1936,11 +1936,12 @@ static int sp_zgemm(char tA, char tB, number alpha, void *a, void *b,
       }
 
 #ifndef _MSC_VER
-      if (beta.z != 0.0) {
+      if (beta.z != 0.0 || !(B->colptr[j+1]-B->colptr[j])) {
 #else
-      if (creal(beta.z) != 0.0 || cimag(beta.z) != 0.0) {
+      if (creal(beta.z) != 0.0 || cimag(beta.z) != 0.0 ||
+          !(B->colptr[j+1]-B->colptr[j])) {
 #endif
-        if (Z->colptr[j+1]-Z->colptr[j] == m) {
+        if (B->colptr[j+1]-B->colptr[j]) {
           for (l=C->colptr[j]; l<C->colptr[j+1]; l++) {
 #ifndef _MSC_VER
             ((double complex *)Z->values)[Z->colptr[j]+C->rowind[l]] +=
